@@ -1,6 +1,7 @@
 SPECIFICATION TSpec
 CONSTANTS
   ShardFailureFix = TRUE
+  DescriptionSortFix = TRUE
   CursorFix = TRUE
   CursorRawDecode = FALSE
   NullMemberFix = TRUE
